@@ -59,7 +59,8 @@ struct Cfg { virtual_tokens: bool, bare_right: bool, lex: String, chardef: Strin
 
 fn gen_cfg(rng: &mut Rng, expose: bool) -> Cfg {
     let pos = ["名詞", "動詞", "助詞"];
-    let sub = ["一般", "*", "固有", "x,y", "\"q", "i\"j"];
+    // cells with surrounding white space and a cell that is only U+3000 are features like any other
+    let sub = ["一般", "*", "固有", "x,y", "\"q", "i\"j", " 一般", "固有 ", "\u{3000}"];
     let base = ["基", "*", "b2"];
     let read = ["ア", "イ", "*"];
     let surf = ["a", "b", "ab", "ba", "c", "猫", "犬", "走る", "bc", "a,b"];
@@ -106,8 +107,9 @@ fn gen_cfg(rng: &mut Rng, expose: bool) -> Cfg {
     // rewrite rules: the left and the right side treat rows differently
     let rule = |rng: &mut Rng| -> String {
         if rng.chance(1, 10) { let k = 1 + rng.below(4) as usize; return format!("{} {}\n", vec!["*"; k].join(","), (1..=k).map(|i| format!("${}", i)).collect::<Vec<_>>().join(",")); }
-        let pat = [*rng.pick(&["名詞", "*", "(名詞|動詞)", "助詞"][..]), *rng.pick(&["*", "固有", "一般"][..]), "*", "*"];
-        let out = [*rng.pick(&["$1", "体言", "$1"][..]), *rng.pick(&["$2", "*", "$2"][..]), *rng.pick(&["$3", "*"][..]), *rng.pick(&["$4", "*"][..])];
+        // (U+3000 and U+00A0 are not separators of a rule line: only ASCII white space is)
+        let pat = [*rng.pick(&["名詞", "*", "(名詞|動詞)", "助詞"][..]), *rng.pick(&["*", "固有", "一般", "\u{3000}", " 一般".trim_start(), "(\u{3000}|固有)"][..]), "*", "*"];
+        let out = [*rng.pick(&["$1", "体言", "$1"][..]), *rng.pick(&["$2", "*", "$2", "空\u{a0}白"][..]), *rng.pick(&["$3", "*"][..]), *rng.pick(&["$4", "*"][..])];
         let n = 2 + rng.below(3) as usize;
         format!("{} {}\n", pat[..n].join(","), out.join(","))
     };
@@ -234,7 +236,7 @@ pub fn run(prop: &str, seed: u64, n: usize, outdir: &str, _corpus: Option<&str>)
             flags.push(("c18_definition_files_accepted".into(), 0));
             *dist.entry("configuration_rejected".into()).or_default() += 1;
             let term = format!(
-                "(Build_trncase {} {} {} {} [([], [], [])] None)",
+                "(Build_trncase {} {} {} {} [([], [], [])] None None)",
                 sub, clist(&flags, |(k, v)| format!("({}, {})", cstr(k), v)),
                 clist(&c.bigrams, |(l, r)| format!("({}, {})", cstr(l), cstr(r))), cstr(&c.rewrite_def)
             );
@@ -258,7 +260,7 @@ pub fn run(prop: &str, seed: u64, n: usize, outdir: &str, _corpus: Option<&str>)
                 for f in ["c14_write_dictionary_succeeds", "c15_generate_succeeds", "c16_write_bigram_details_succeeds"] { flags.push((f.into(), 0)); }
                 *dist.entry(format!("first_generation_fails_panic_{}_k7_{}", other.is_err(), k7)).or_default() += 1;
                 let term = format!(
-                    "(Build_trncase {} {} {} {} [] None)",
+                    "(Build_trncase {} {} {} {} [] None None)",
                     sub, clist(&flags, |(k, v)| format!("({}, {})", cstr(k), v)),
                     clist(&c.bigrams, |(l, r)| format!("({}, {})", cstr(l), cstr(r))), cstr(&c.rewrite_def)
                 );
@@ -348,6 +350,17 @@ pub fn run(prop: &str, seed: u64, n: usize, outdir: &str, _corpus: Option<&str>)
                     nright, nleft)
             }
             Err(_) => "None".to_string(),
+        };
+        // the definition files, the hooks' labels / dimensions and the four emitted files for the model of write_dictionary
+        let gen_t = match (prop == "C14", model.verif_merged_dims()) {
+            (true, Ok((dr, dl))) => {
+                let b = |x: &[u8]| crate::util::cbytes(x);
+                format!("(Some (Build_gendata {} {} {} {} {} ({}, {}) {} {} {} {}))",
+                    b(c.chardef.as_bytes()), b(c.lex.as_bytes()), b(c.unk.as_bytes()), b(c.user.as_bytes()),
+                    clist(&model.verif_user_labels(), |x| cn(x)), dr, dl,
+                    b(&f1.lex), b(&f1.unk), b(&f1.matrix), b(&f1.user))
+            }
+            _ => "None".to_string(),
         };
         // user rows: trained iff given as 0,0,0
         let user_ok = c.user.lines().zip(user_out.lines()).all(|(a, b)| match (split_row(a), split_row(b)) {
@@ -457,10 +470,10 @@ pub fn run(prop: &str, seed: u64, n: usize, outdir: &str, _corpus: Option<&str>)
             format!("({}, {}, {})", clist(&words, |w| w.clone()), rows_of(&f.left), rows_of(&f.right))
         };
         let term = format!(
-            "(Build_trncase {} {} {} {} {} {})",
+            "(Build_trncase {} {} {} {} {} {} {})",
             sub, clist(&flags, |(k, v)| format!("({}, {})", cstr(k), v)),
             clist(&c.bigrams, |(l, r)| format!("({}, {})", cstr(l), cstr(r))), cstr(&c.rewrite_def),
-            clist(&[view(&f1), view(&g3)], |v| v.clone()), num_t
+            clist(&[view(&f1), view(&g3)], |v| v.clone()), num_t, gen_t
         );
         term
         }));
@@ -473,7 +486,7 @@ pub fn run(prop: &str, seed: u64, n: usize, outdir: &str, _corpus: Option<&str>)
                 for f in ["c14_write_dictionary_succeeds", "c15_generate_succeeds", "c16_write_bigram_details_succeeds"] { flags.push((f.into(), 0)); }
                 *dist.entry(format!("later_generation_panics_k7_{}", k7)).or_default() += 1;
                 format!(
-                    "(Build_trncase {} {} {} {} [] None)",
+                    "(Build_trncase {} {} {} {} [] None None)",
                     sub, clist(&flags, |(k, v)| format!("({}, {})", cstr(k), v)),
                     clist(&c.bigrams, |(l, r)| format!("({}, {})", cstr(l), cstr(r))), cstr(&c.rewrite_def)
                 )
